@@ -268,6 +268,28 @@ def run(chk: Check) -> None:
                                   {"op": "serial", "stream": stream.hex(), "chunks": [len(c) for c in chunks]})
                     break
             chk.nontrivial.add(stream)
+            if si % 5 == 1:
+                # the same stream while the engine is paused (what Engine._pause does to the stack while a saved state is
+                # restored: writing paused, reading paused, the message handler parked): a serial port goes on delivering,
+                # and nothing escapes
+                pr, tr = rig.protocol, rig.transport
+                parked = pr._msg_handler
+                try:
+                    if rig is rig_tx:
+                        pr.pause_writing()
+                    tr.pause_reading()
+                    pr._msg_handler = None
+                    _got, esc_p = await rig.replay([stream])
+                finally:
+                    pr._msg_handler = parked
+                    tr.resume_reading()
+                    if rig is rig_tx:
+                        pr.resume_writing()
+                chk.evaluations += 1
+                chk.count("serial.streams_while_paused")
+                if esc_p:
+                    chk.violation(f"serial.paused.escape:{type(esc_p[0]).__name__}", f"reading {stream[:80]!r}... while the engine is paused let {esc_p[0]!r} escape",
+                                  {"op": "serial.paused", "stream": stream.hex(), "chunks": [len(stream)]})
             # a rejected / junk line must not affect its neighbours: every good line alone == in the stream
             alone = []
             for x in lines:
